@@ -727,6 +727,17 @@ func (x *Exec) evalCall(n *SCall, env *Env) Val {
 		fid := x.val(target)
 		e.decl("(declare-fun closureFn (Int) Int)")
 		return Val{T: fmt.Sprintf("(= (closureFn %s) %s)", f.T, fid.T), Sort: "Bool"}
+	case "isFunc": // isFunc(f, "pkg.Fn"): f is that (top-level) function itself
+		f := arg(0)
+		nm, ok := n.Args[1].(*SStr)
+		if !ok {
+			x.fail("isFunc: second argument must be a string literal")
+		}
+		target := e.prog.funcs[nm.V]
+		if target == nil {
+			x.fail("isFunc: no function %s in the program", nm.V)
+		}
+		return Val{T: fmt.Sprintf("(= %s %s)", f.T, x.val(target).T), Sort: "Bool"}
 	case "boundMethod": // boundMethod(f, "pkg.(*T).M", recv): f is the method value recv.M
 		f, recv := arg(0), arg(2)
 		nm, ok := n.Args[1].(*SStr)
